@@ -98,7 +98,10 @@ class Sys:
                 return None
             if f == "scalar":
                 return arr_[0]
-            return {k: arr_[i] for i, k in enumerate(keys)}
+            d = {k: arr_[i] for i, k in enumerate(keys)}
+            if f == "dict_rev":         # same mapping, written in the opposite insertion order
+                d = dict(reversed(list(d.items())))
+            return d
         kw = {}
         if form.get("dyn_loss") != "default":
             kw["dyn_loss"] = w("dyn_loss", a["wd"], self.ek)
@@ -128,7 +131,7 @@ class Sys:
         loss, pd, batch = self._build(a, form, ic_on, obs_on, bc_on)
         return self.symbolic_weights(loss, a), pd, batch
 
-    def _build(self, a, form, ic_on, obs_on, bc_on=()):
+    def _build(self, a, form, ic_on, obs_on, bc_on=(), derivative_keys_dict=None):
         pd = self.params_dict(a)
         u_dict = {u: self.nets[u].u for u in self.uk}
         lw = self.weights(a, form)
@@ -136,7 +139,8 @@ class Sys:
                for i, u in enumerate(self.uk)}
         if self.kind == "ODE":
             # constructed with concrete data (as users do, outside jit); the symbolic initial state is put in afterwards
-            loss = SystemLossODE(u_dict=u_dict, dynamic_loss_dict=self.dyn, loss_weights=lw, params_dict=pd,
+            extra = dict(derivative_keys_dict=dict(derivative_keys_dict)) if derivative_keys_dict is not None else {}
+            loss = SystemLossODE(u_dict=u_dict, dynamic_loss_dict=self.dyn, loss_weights=lw, params_dict=pd, **extra,
                                  initial_condition_dict={u: ((0.5, np.zeros((1,))) if u in ic_on else None)
                                                          for i, u in enumerate(self.uk)})
             on = [(i, u) for i, u in enumerate(self.uk) if u in ic_on]
@@ -147,6 +151,8 @@ class Sys:
         else:
             fb, fic = self.fb, self.fic
             kw = dict(u_dict=u_dict, dynamic_loss_dict=self.dyn, loss_weights=lw, params_dict=pd)
+            if derivative_keys_dict is not None:
+                kw["derivative_keys_dict"] = dict(derivative_keys_dict)
             if bc_on:
                 kw["omega_boundary_condition_dict"] = {u: ("dirichlet" if u in bc_on else None) for u in self.uk}
                 if self.kind == "statio":
@@ -311,6 +317,9 @@ def obligations(tier):
                                           "boundary_loss": "dict"}, allu(2) if kind != "statio" else (), allu(2),
                              bc_on=allu(2) if kind != "ODE" else ()))
         obs.append(system_ob(kind, 2, 2, {"dyn_loss": "dict"}, allu(2) if kind != "statio" else (), ("u",)))
+        obs.append(system_ob(kind, 3, 2, {"dyn_loss": "dict_rev", "observations": "dict_rev", "initial_condition": "dict_rev",
+                                          "boundary_loss": "dict_rev"}, allu(2) if kind != "statio" else (), allu(2),
+                             bc_on=allu(2) if kind != "ODE" else ()))
         obs.append(system_ob(kind, 2, 2, {"observations": "none"}, allu(2) if kind != "statio" else (), ("v",)))
         obs.append(system_ob(kind, 2, 2, {"dyn_loss": "none"}, ("u",) if kind != "statio" else (), ("u",)))
         obs.append(system_ob(kind, 3, 2, {"dyn_loss": "none"}, ("u",) if kind != "statio" else (), ("u",)))
